@@ -17,6 +17,18 @@ var (
 	}
 )
 
+// nextTimestamp stamps a local change of an entry whose newest known update is last. It is the
+// node clock, except when that clock is behind an update already received from a node with a
+// faster clock: a local change must still supersede what this node has seen, or it would apply
+// here while every other node discards it as older.
+func nextTimestamp(last int64) int64 {
+	now := clock()
+	if now <= last {
+		return last + 1
+	}
+	return now
+}
+
 var (
 	ErrInvalidPayload         = errors.New("invalid payload")
 	ErrSessionMetadatasExists = errors.New("session metadatas already exists")
